@@ -697,7 +697,7 @@ fn judge(job: &JobSpec, expected: &[Expected], error: &Option<Expected>, mode: &
         }
     }
     match mode {
-        "quiet" => {
+        "quiet" | "quiet-only" => {
             if !r.log.is_empty() {
                 let d = &r.log[0];
                 v.push(("quiet-ignored".into(), format!("quiet is set, yet the Logger received {} {:?} at {}:{}", d.kind, d.msg, d.file, d.line)));
@@ -864,6 +864,23 @@ impl Engine for LoggerEngine {
                 if a.outcome.observable() != b.outcome.observable() {
                     res.violations.push(Violation { property: "C19".into(), class: "quiet-changes-result".into(), detail: format!("quiet changed the result: {} vs {}", a.outcome.brief(), b.outcome.brief()), case: case_json(&q, &sc.expected, &sc.error, "quiet") });
                 }
+            }
+            // quiet must also silence warnings that do not come from @warn/@debug: the one
+            // such source in grass is meta.load-css with $with. The variant prepends
+            // `@use "sass:meta"` and appends such a call to the entry; it is run under
+            // quiet only (no expectation about the text of that warning is encoded).
+            {
+                let mut j = sc.job.clone();
+                j.quiet = true;
+                let sass = j.files[0].0.ends_with(".sass");
+                let semi = if sass { "" } else { ";" };
+                let nl = if j.files[0].1.windows(2).any(|w| w == b"\r\n") { "\r\n" } else { "\n" };
+                let mut t = format!("@use \"sass:meta\"{}{}", semi, nl).into_bytes();
+                t.extend_from_slice(&j.files[0].1);
+                t.extend_from_slice(format!("{}@include meta.load-css(\"qdep\", $with: ()){}{}", nl, semi, nl).as_bytes());
+                j.files[0].1 = t;
+                j.files.push((format!("{}/_qdep.scss", root), b".q { r: s; }\n".to_vec()));
+                go(&j, &[], &None, "quiet-only", &mut res, false);
             }
             // faults on the reads of imported files (intact text: prefix rule)
             if let Some(r0) = &r0 {
